@@ -1,0 +1,23 @@
+// Copyright (c) HashiCorp, Inc.
+// SPDX-License-Identifier: MPL-2.0
+
+//go:build !verif
+
+// Package verifhook provides observation points for the external
+// verification harness. Without the "verif" build tag every function here is
+// empty and is inlined away.
+package verifhook
+
+// Enabled reports whether hooks are compiled in.
+const Enabled = false
+
+// Point does nothing without the verif build tag.
+func Point(ev string, obj interface{}, a, b int64) {}
+
+// B converts a bool to the scalar form used by Point.
+func B(v bool) int64 {
+	if v {
+		return 1
+	}
+	return 0
+}
